@@ -20,6 +20,7 @@ CONSTANTS Part,       \* "bounds" | "guess" | "scale" | "machine"
           Deviation,  \* "none" | "AcceptsEqual" | "MidIsSum" | "NoRegularize" | "TimesTau" | "AddM"
                       \*        | "FixedTauOverwritten" | "FixedTauNotStored" | "FitIgnoresBounds"
           MaxDepth,   \* machine: bound on the number of calls in a history
+          Rebounds,   \* machine: TRUE = the alphabet also has the caller assigning other bounds to the object between calls
           Export      \* TRUE: print every case / maximal history with its expectation
 
 VARIABLES c,          \* the case (parts bounds, guess, scale); [part |-> "machine"] otherwise
@@ -159,7 +160,9 @@ SupSrc(k) == [src |-> "supplied", call |-> k]
 NoTau == NaN            \* fit() called without tau
 FitCalls == {[op |-> "fit", tau |-> NoTau]} \cup {[op |-> "fit", tau |-> v] : v \in {R(0), R(2), R(4)}}
 FcCalls  == {[op |-> "forecast", M |-> m, tau |-> t] : m \in {"none", "arg"}, t \in {"none", "arg"}}
-Calls    == FitCalls \cup FcCalls
+\* the caller assigns another Bounds object to the (public, non-frozen) `bounds` field: later fits honour the new limits
+ReCalls  == IF Rebounds THEN {[op |-> "rebound", M |-> sm, tau |-> st] : sm \in Styles, st \in Styles} ELSE {}
+Calls    == FitCalls \cup FcCalls \cup ReCalls
 
 \* ---- declarative side ----------------------------------------------------------------------------------
 \* index of the latest fit among h[1..n] (0 if none)
@@ -172,7 +175,8 @@ ExpectedObs(h) ==
     LET n == Len(h)
         cl == h[n]
         k == LastFit(h, n - 1)
-    IN  IF cl.op = "fit"
+    IN  IF cl.op = "rebound" THEN [kind |-> "set"]
+        ELSE IF cl.op = "fit"
         THEN [kind |-> "fit", mode |-> IF cl.tau = NoTau THEN "free" ELSE "fixedTau"]
         ELSE LET ms == IF cl.M = "arg" THEN ArgSrc ELSE IF k = 0 THEN Unset ELSE FitSrc(k)
                  ts == IF cl.tau = "arg" THEN ArgSrc
@@ -182,14 +186,16 @@ ExpectedObs(h) ==
                  ELSE [kind |-> "cum", M |-> ms, tau |-> ts]
 
 \* what C05 says about the attributes after a fit call (resM, resTau: what M_, tau_ show afterwards)
-FitResultOK(cl, resM, resTau) ==
-    /\ resM \in InB(AB(bnd.M))
-    /\ IF cl.tau = NoTau THEN resTau \in InB(AB(bnd.tau)) ELSE resTau = cl.tau
+\* b: the bounds in force when the fit was made
+FitResultOKAt(b, cl, resM, resTau) ==
+    /\ resM \in InB(AB(b.M))
+    /\ IF cl.tau = NoTau THEN resTau \in InB(AB(b.tau)) ELSE resTau = cl.tau
+FitResultOK(cl, resM, resTau) == FitResultOKAt(bnd, cl, resM, resTau)
 
 \* ---- implementation-shaped actions -----------------------------------------------------------------------
 Record(cl, o) == /\ hist' = Append(hist, cl)
                  /\ obs' = o
-                 /\ exp' = Append(exp, [call |-> [f \in (DOMAIN cl) \ {"resM", "resTau"} |-> cl[f]], obs |-> o])
+                 /\ exp' = Append(exp, [call |-> [f \in (DOMAIN cl) \ {"resM", "resTau", "bndAt"} |-> cl[f]], obs |-> o])
 
 ValOf(a) == IF a = Unset THEN NaN ELSE a.v
 
@@ -202,7 +208,7 @@ FitFree(cl, m, t) ==
            /\ tau_' = [v |-> t, src |-> FitSrc(k)]
            /\ fitted' = "free"
            /\ UNCHANGED <<c, bnd>>
-           /\ Record(cl @@ [resM |-> m, resTau |-> t], [kind |-> "fit", mode |-> "free"])
+           /\ Record(cl @@ [resM |-> m, resTau |-> t, bndAt |-> bnd], [kind |-> "fit", mode |-> "free"])
 
 FitFixed(cl, m, t) ==       \* t is only used by the deviation in which the fit overwrites the supplied tau
     /\ cl.op = "fit" /\ cl.tau # NoTau
@@ -214,7 +220,7 @@ FitFixed(cl, m, t) ==       \* t is only used by the deviation in which the fit 
            /\ tau_' = newTau
            /\ fitted' = "fixedTau"
            /\ UNCHANGED <<c, bnd>>
-           /\ Record(cl @@ [resM |-> m, resTau |-> ValOf(newTau)], [kind |-> "fit", mode |-> "fixedTau"])
+           /\ Record(cl @@ [resM |-> m, resTau |-> ValOf(newTau), bndAt |-> bnd], [kind |-> "fit", mode |-> "fixedTau"])
 
 Forecast(cl) ==
     /\ cl.op = "forecast"
@@ -223,6 +229,12 @@ Forecast(cl) ==
        IN  Record(cl, IF ms = Unset \/ ts = Unset THEN [kind |-> "AttributeError"]
                       ELSE [kind |-> "cum", M |-> ms, tau |-> ts])
     /\ UNCHANGED <<c, bnd, fitted, M_, tau_>>
+
+Rebound(cl) ==
+    /\ cl.op = "rebound"
+    /\ bnd' = [M |-> cl.M, tau |-> cl.tau]
+    /\ UNCHANGED <<c, fitted, M_, tau_>>
+    /\ Record(cl, [kind |-> "set"])
 
 \* what the bounded optimiser may return
 FitSetM   == IF Deviation = "FitIgnoresBounds" THEN Vals ELSE InB(AB(bnd.M))
@@ -234,12 +246,13 @@ MachineNext == /\ Len(hist) < MaxDepth
                      \/ \E m \in FitSetM, t \in (IF Deviation = "FixedTauOverwritten" THEN FitSetTau ELSE {R(1)}) :
                            FitFixed(cl, m, t)
                      \/ Forecast(cl)
+                     \/ Rebound(cl)
 
 \* ---- machine properties ------------------------------------------------------------------------------------
 IsMachine == c.part = "machine"
 C05_ForecastUses == (IsMachine /\ hist # <<>>) => obs = ExpectedObs(hist)
 C05_FitResult == IsMachine => \A i \in 1..Len(hist) :
-                                 hist[i].op = "fit" => FitResultOK(hist[i], hist[i].resM, hist[i].resTau)
+                                 hist[i].op = "fit" => FitResultOKAt(hist[i].bndAt, hist[i], hist[i].resM, hist[i].resTau)
 C05_AttrsAreLatestFit == (IsMachine /\ fitted # "none")
                             => LET k == LastFit(hist, Len(hist))
                                IN  /\ k > 0 /\ M_ # Unset /\ M_.src = FitSrc(k) /\ M_.v = hist[k].resM
